@@ -56,6 +56,11 @@ func BuildPlugin(out string, overlay string) error {
 	cmd := exec.Command("go", args...)
 	cmd.Dir = RepoDir
 	cmd.Env = GoEnv()
+	if overlay != "" {
+		// the module index caches the import lists of module-cache packages and would hide imports
+		// added by overlay files of dependency packages
+		cmd.Env = append(cmd.Env, "GODEBUG=goindex=0")
+	}
 	b, err := cmd.CombinedOutput()
 	if err != nil {
 		return &BuildError{What: "go build of the plugin failed", Out: string(b)}
